@@ -404,3 +404,32 @@ def replay_registered_on_reset(payload):
 
     rc, out = _run_design(_ON_RESET_DESIGN)
     return {"reproduced": rc == 0 and "ACTION_DROPPED" in out, "detail": out[-200:]}
+
+
+# ---- SequentialContext.with_params: every parameter is the given one, otherwise the one of the context -------------------------
+# (clock, reset, step condition and the registered on_reset action are independent of each other; the attributes are kept)
+import itertools as _it  # noqa: E402
+
+
+def with_params_spec(given):
+    def spec(sx, self, **kw):
+        def holds(res):
+            if not (isinstance(res, SObj) and res.kind is SC.SequentialContext):
+                return False
+            got = res.fields["f_kw"]
+            want = {k: (f"NEW_{k}" if k in given else f"OLD_{k}") for k in ("clk", "reset", "step_cond", "on_reset")}
+            return all(got.get(k) == v for k, v in want.items()) and got.get("attributes") == {"a": 1} and not res.fields["f_args"]
+
+        return C.Pred(holds, "each of clk / reset / step_cond / on_reset: the given value, else the context's own; attributes kept")
+
+    return spec
+
+
+con = contract("cohdl.std._context:SequentialContext.with_params", PROPS)
+for r in range(0, 5):
+    for given in _it.combinations(("clk", "reset", "step_cond", "on_reset"), r):
+        c = Case("given:" + (",".join(given) or "nothing"), [Built([], lambda env: SObj(SC.SequentialContext, _clk="OLD_clk", _reset="OLD_reset", _step_cond="OLD_step_cond", _on_reset="OLD_on_reset", _attributes={"a": 1}, _comment=None, _capture_lazy=False),
+                                                                    lambda a: "<ctx>", lambda a: None)], with_params_spec(given), kwargs={k: VAL(f"NEW_{k}", f"'NEW_{k}'") for k in given})
+        c.native = False
+        c.interp_flags = {"class_call_models": {SC.SequentialContext: lambda it, args, kw: SObj(SC.SequentialContext, f_args=list(args), f_kw=dict(kw))}}
+        con.cases.append(c)
